@@ -1451,7 +1451,7 @@ def to_symlist(it, v, elem):
     if isinstance(v, SymList):
         return SymList(v.n, v.arr, v.elem)
     es = pm.msg_sort(elem) if isinstance(elem, MsgSchema) else pm.scalar_sort(elem)
-    r = SymList(z3.IntVal(0), z3.K(z3.IntSort(), pm._default_term(es)), elem)
+    r = SymList(z3.IntVal(0), pm.empty_array(es), elem)
     for x in iterate(it, v):
         symlist_append(it, r, x)
     return r
